@@ -189,7 +189,7 @@ def run(ctx):
     m = S.Mappers(pool)
     counter = itertools.count()
     # ---- writing side
-    n_trees = 120 if ctx.thorough else 40
+    n_trees = 600 if ctx.thorough else 120
     combos = [(k, v) for k in S.KEY_MAPS for v in S.VALUE_MAPS]
     corpus = [
         ("plain-str", [(0, [(6, [(2, [])])]), (1, [(6, [(2, [])]), (7, [])]), (6, [(2, [])])]),      # later clone occurrences that have children
@@ -243,7 +243,7 @@ def run(ctx):
         if k < 2 and doc is not None:
             out.sample(dict(side="write", tree=spec, doc=doc))
     # ---- reading side
-    n_docs = 400 if ctx.thorough else 120
+    n_docs = 3000 if ctx.thorough else 400
     for k in range(n_docs):
         typed = k % 3 == 2
         objs = k % 2 == 1
